@@ -1,6 +1,8 @@
 #![allow(dead_code)]
 mod common;
 mod dl;
+mod explore;
+mod gen;
 mod luaref;
 mod props;
 
